@@ -44,6 +44,7 @@ func runC15(c *Ctx) {
 	c.Rule("C15-R5", "cache protocol: only successes are stored, key names the upstream (shared with C14-R3)", 9)
 	defer c14CacheR(c, "C15-R5")
 	defer c15NoStickyOutage(c)
+	defer checkParamsUsed(c, "C15-R3", "internal/promapi.NewFailoverGroup", "internal/promapi.NewPrometheus", "internal/config.newFailoverGroup")
 
 	prom := p.Pkg("internal/promapi")
 	if prom == nil {
